@@ -94,8 +94,15 @@ def readline_specs():
         '_readline_push_line_to_history': FnSpec(pre=['len <= %d' % (CAP - 1)], extents={'str': 'len'}),
         'readline_push_current_line_to_history': FnSpec(),
         'readline_load_history_line': FnSpec(),
-        'readline_history_up': FnSpec(),
-        'readline_history_down': FnSpec(),
+        # the recall position walks over exactly the history_size stored lines: 0 (the line being edited) .. history_size
+        'readline_history_up': FnSpec(post=[
+            dict(name='older-line-while-one-is-left', when=['curhist <= history_size - 1'],
+                 then=['ret == 1', 'curhist_post == curhist + 1', 'headhist_post == headhist']),
+            dict(name='stops-at-the-oldest-line', when=['curhist == history_size'], then=['ret == 0', 'curhist_post == curhist'])]),
+        'readline_history_down': FnSpec(post=[
+            dict(name='newer-line-while-one-is-left', when=['curhist >= 1'],
+                 then=['ret == 1', 'curhist_post == curhist - 1', 'headhist_post == headhist']),
+            dict(name='stops-at-the-edited-line', when=['curhist == 0'], then=['ret == 0', 'curhist_post == 0'])]),
         'readline_linecpy': FnSpec(pre=['maxlen >= 1', 'maxlen <= 1073741824'], extents={'line': 'maxlen'},
                                    post=[dict(name='length', then=['ret >= 0', 'ret <= maxlen - 1', 'ret <= rl.line.len'])]),
         'readline_putchar': FnSpec(post=[
